@@ -25,6 +25,7 @@ const FAMILY: &[&str] = &[
     "2024 week 1-2", "Jan week 1", "Dec-Jan week 1 Mo-Fr", "2024Feb week 9", "2020-2030/2 Jul-Aug", "2024 PH",
     "Jan 10:00-12:00", "week 1-2 18:00-06:00", "2024 00:00-24:00 ; Jan off", "Jan ; Feb 10:00-12:00", "week 53 22:00-26:00",
     "Jan-Mar || week 10-20 unknown", "2024 ; 2025 closed", "Jan, week 5 10:00-12:00", "Dec 22:00-26:00 ; Jan off",
+    "2025 Feb 21-easter", "2030 Mar 1-2030 easter", "easter-2025 Jun 1", "2100 Dec 20-Jan 5", "2400 easter -2 days-2400 Jun 1", "2021 Mar 28-Apr 16",
     "Jan || closed", "week 1 Mo 00:00-24:00 || 2030+ unknown", "Jan closed || Feb || open", "PH -1 day 20:00-28:00",
 ];
 
